@@ -383,9 +383,10 @@ func runProc(timeout time.Duration, env []string, bin string, args ...string) (s
 }
 
 // aloneCheck: a long-lived worker process has a history (all earlier episodes).
-// For a sample of warm episodes every stateless call of the sequential baseline
-// is run once more truly alone - its own fresh process, fixtures loaded as data -
-// and must give the same result: "regardless of what other calls ran before".
+// Every stateless call of a warm episode's sequential baseline is compared with
+// the same call run truly alone - a fresh process of its own, fixtures loaded as
+// data - "regardless of what other calls ran before". References are memoised
+// per (fixture set, call).
 func aloneCheck(a *aggT, seed uint64, thorough bool, e int, baseA [][]string, sites string) {
 	ep := genEpisode(seed, e, thorough)
 	fix, err := coldFixtures(ep.FixSeed)
@@ -396,30 +397,44 @@ func aloneCheck(a *aggT, seed uint64, thorough bool, e int, baseA [][]string, si
 	for _, k := range coldKinds {
 		cold[k] = true
 	}
-	n := 0
 	for t, calls := range ep.Tasks {
 		for i, c := range calls {
-			if !cold[c.K] || c.K == "dnewrand" || t >= len(baseA) || i >= len(baseA[t]) || n >= 12 {
+			if !cold[c.K] || c.K == "dnewrand" || t >= len(baseA) || i >= len(baseA[t]) {
 				continue
 			}
-			n++
-			one, _ := json.Marshal(&Episode{FixSeed: ep.FixSeed, EntSeed: ep.EntSeed, Tasks: [][]Call{{c}}})
-			o, code, err := runProc(5*time.Minute, nil, os.Getenv("CONSIM_BIN_PLAIN"), "cold-ref", string(one), fix, sites)
-			var oo coldOut
-			if err != nil || code != 0 || json.Unmarshal([]byte(o), &oo) != nil || len(oo.Results) != 1 || len(oo.Results[0]) != 1 {
-				continue
+			// one fresh process per distinct call (memoised per fixture set)
+			key := fmt.Sprintf("%d|%s|%d|%d", ep.FixSeed, c.K, c.A, c.B)
+			aloneMu.Lock()
+			alone, ok := aloneMemo[key]
+			aloneMu.Unlock()
+			if !ok {
+				one, _ := json.Marshal(&Episode{FixSeed: ep.FixSeed, EntSeed: ep.EntSeed, Tasks: [][]Call{{c}}})
+				o, code, err := runProc(5*time.Minute, nil, os.Getenv("CONSIM_BIN_PLAIN"), "cold-ref", string(one), fix, sites)
+				var oo coldOut
+				if err != nil || code != 0 || json.Unmarshal([]byte(o), &oo) != nil || len(oo.Results) != 1 || len(oo.Results[0]) != 1 {
+					continue
+				}
+				alone = oo.Results[0][0]
+				aloneMu.Lock()
+				aloneMemo[key] = alone
+				aloneMu.Unlock()
 			}
 			a.mu.Lock()
 			a.aloneRefs++
-			if oo.Results[0][0] != baseA[t][i] {
+			if alone != baseA[t][i] {
 				a.found = append(a.found, foundV{e: e, warmAlone: true, v: Violation{Property: "C15", Oracle: "history-dependent-result", Where: fmt.Sprintf("episode %d task%d/call%d", e, t, i),
-					Detail:    fmt.Sprintf("%s: alone in a fresh process %s, in a worker process that had run other calls before %s", c.K, short(oo.Results[0][0]), short(baseA[t][i])),
+					Detail:    fmt.Sprintf("%s: alone in a fresh process %s, in a worker process that had run other calls before %s", c.K, short(alone), short(baseA[t][i])),
 					Signature: "history-dependent-result:long-history:" + c.K}})
 			}
 			a.mu.Unlock()
 		}
 	}
 }
+
+var (
+	aloneMu   sync.Mutex
+	aloneMemo = map[string]string{}
+)
 
 var coldSeq int64
 
